@@ -65,11 +65,13 @@ def _unescape(s):
     return re.sub(r'\\u\{([0-9a-fA-F]+)\}', lambda m: chr(int(m.group(1), 16)), s)
 
 
-def run_z3_api(text, timeout_ms, want_model=False):
+def run_z3_api(text, timeout_ms, want_model=False, fresh_ctx=False):
     import z3
     t0 = time.time()
     try:
-        s = z3.Solver()
+        # proof obligations get a context of their own: nothing declared by an earlier query of this worker
+        # process (sorts, functions with the same name) can leak into them
+        s = z3.Solver(ctx=z3.Context()) if fresh_ctx else z3.Solver()
         s.set('timeout', int(timeout_ms))
         s.from_string(text)
         r = s.check()
@@ -155,7 +157,7 @@ def solve_one(job):
     # when no other back end refutes it (z3's sequence theory has produced spurious `sat` on quantified goals).
     sat_seen = None
     for vi, text in enumerate(texts):
-        st, info, secs = run_z3_api(text, min(2000, budget * 1000), want_model=True)
+        st, info, secs = run_z3_api(text, min(2000, budget * 1000), want_model=True, fresh_ctx=True)
         record('z3-5.1', vi, st, info, secs)
         if st == 'unsat':
             verdict = 'unsat'
@@ -178,7 +180,7 @@ def solve_one(job):
                 elif backend == 'z3old':
                     st, info, secs = run_cli('z3old', text, budget)
                 else:
-                    st, info, secs = run_z3_api(text, budget * 1000, want_model=True)
+                    st, info, secs = run_z3_api(text, budget * 1000, want_model=True, fresh_ctx=True)
                 record(backend, vi, st, info, secs)
                 if st == 'unsat':
                     verdict = 'unsat'
@@ -193,6 +195,22 @@ def solve_one(job):
     if verdict is None:
         sts = set(a['status'] for a in attempts)
         verdict = 'error' if sts == {'error'} else 'unknown'
+    if verdict == 'unsat' and job.get('confirm'):
+        # must-fail sentinels: an `unsat` only counts when a second solver family agrees
+        first = [a['backend'] for a in attempts if a['status'] == 'unsat'][0]
+        other = 'cvc5' if first.startswith('z3') else 'z3-5.1'
+        confirmed = False
+        for vi, text in enumerate(texts):
+            if other == 'cvc5':
+                st, info, secs = run_cli('cvc5', text, budget)
+            else:
+                st, info, secs = run_z3_api(text, budget * 1000, fresh_ctx=True)
+            record(other + '-confirm', vi, st, info, secs)
+            if st == 'unsat':
+                confirmed = True
+                break
+        if not confirmed:
+            verdict = 'unconfirmed-unsat'
     winner = None
     for a in attempts:
         if a['status'] == verdict:
